@@ -31,7 +31,7 @@ Inductive qkind :=
 
 Record query := mkQ { q_kind : qkind; q_to : acct; q_amt : Z; q_gas : Z (* oracle: gas used by a simulated tx *) }.
 
-Inductive point := PYield (k : nat) | PPre | PPost | PInter | PNone.
+Inductive point := PYield (k : nat) | PPre | PPost | PInter | PParked | PNone.
 
 Record case := mkCase {
   c_value : Z; c_bx : Z; c_by : Z; c_bz : Z;
@@ -98,6 +98,7 @@ Definition schedule (c : case) (d1 dlen : nat) (qs : list (list step)) : list ti
   | PPre => qsch ++ repeat 0%nat dlen
   | PPost => repeat 0%nat d1 ++ qsch ++ repeat 0%nat (dlen - d1)
   | PInter => repeat 0%nat dlen ++ qsch
+  | PParked => firstn 1 qsch ++ repeat 0%nat dlen ++ skipn 1 qsch  (* the request is inside while the block's txs run *)
   | PYield k =>
       match yield_pos k (c_steps c) with
       | Some p => repeat 0%nat (5 + p) ++ qsch ++ repeat 0%nat (dlen - (5 + p))
